@@ -329,6 +329,19 @@ class Callable_(D):
         return SpecCallable(self.name or name, self.contract, self.returns)
 
 
+
+def any_value_sorts(*names):
+    """Declare opaque sorts that stand for arbitrary python VALUES (falsy ones included): their truthiness is explored both ways."""
+    from . import values as _v
+
+    _v.ANY_VALUE_SORTS.update(names)
+
+
+# the sorts the contract modules use for generated / user-supplied DATA (as opposed to objects): parameter, body, example and link values, option values of the CLI
+any_value_sorts("Value", "ExampleValue", "LinkValue", "ParamValue", "FieldValue", "FormValue", "Generated", "GeneratedValue", "JsonValue", "JsonBody", "Body", "BodyValue",
+                "GeneratedBody", "Drawn", "KeywordValue", "Item", "LinkBody", "MaxFailures", "MaxExamples", "RequestTimeout", "Proxy", "BaseUrl", "DatabaseOption", "AuthPair",
+                "HeadersMap", "SetQuery", "SetHeader", "SetCookie", "SetPath")
+
 # ----------------------------------------------------------------------------- contracts
 class Contract:
     def __init__(self, target, args=None, requires=(), ensures=None, raises=(), modifies=(), returns=None, pure=False,
